@@ -178,6 +178,22 @@ fn carc<T: El>() -> R {
     let ev: CArcView = unsafe { std::mem::transmute_copy(&e) };
     ensure!(ev.instance.is_null(), "layout:carc_empty", "empty CArc has a non-null instance");
     drop(e);
+    // an arc emptied by take(), released by a foreign holder the way the published header does it
+    // (`if (drop_fn) drop_fn(instance);`) and cloned the way it does it when a clone function is present
+    {
+        let mut h: CArc<T> = CArc::from(retained.clone());
+        let taken = h.take();
+        let hv: CArcView = unsafe { std::mem::transmute_copy(&h) };
+        std::mem::forget(h);
+        ensure!(hv.instance.is_null(), "layout:carc_taken", "an arc emptied by take() keeps its instance pointer");
+        let before = Arc::strong_count(&retained);
+        if let Some(dfn) = hv.drop_fn {
+            unsafe { dfn(hv.instance) };
+        }
+        ensure!(Arc::strong_count(&retained) == before && d.count(0) == 0, "layout:carc_taken_release", "releasing an emptied arc through its published fields changed the count of the value it used to hold ({} -> {})", before, Arc::strong_count(&retained));
+        drop(taken);
+        ensure!(Arc::strong_count(&retained) == before - 1, "layout:carc_taken_release", "the taken-out handle does not own the reference");
+    }
     // opaque form: same bits
     let h: CArcSome<T> = CArcSome::from(retained.clone());
     let bits: [usize; 3] = unsafe { std::mem::transmute_copy(&h) };
